@@ -23,6 +23,14 @@ def suite(cwd, features=""):
     r = sh(f"cd {cwd} && cargo test --workspace --no-fail-fast --offline {f} 2>&1 | grep -E '^test |^test result'")
     passed = len(re.findall(r"^test .* \.\.\. ok$", r.stdout, re.M))
     failed = sorted(re.findall(r"^test (.*) \.\.\. FAILED$", r.stdout, re.M))
+    # tests with a wall-clock limit (rise::tst::*) fail under heavy machine load: an unexpected failure is re-run on its own
+    for t in list(failed):
+        if "redundancy_matching_bug" in t:
+            continue
+        r2 = sh(f"cd {cwd} && cargo test --offline {f} --test entry -- --exact {t} 2>&1 | grep -E '^test result'")
+        if re.search(r"1 passed; 0 failed", r2.stdout):
+            failed.remove(t)
+            passed += 1
     return passed, failed
 
 
@@ -47,9 +55,10 @@ def save_meta(d, m):
     json.dump(m, open(os.path.join(d, "meta.json"), "w"), indent=1)
 
 
-def verify(pid, x):
-    # second round of sub-agents (variants c, d) handed over under /tmp/mut2/<pid>/handover/{a,b}
-    src = f"/tmp/mut/{pid}/handover/{x}" if x in "ab" else f"/tmp/mut2/{pid}/handover/{'a' if x == 'c' else 'b'}"
+def verify(pid, x, src=None):
+    # rounds of sub-agents hand over under /tmp/mut<k>/<pid>/handover/{a,b}; later rounds pass --src <dir>
+    if src is None:
+        src = f"/tmp/mut/{pid}/handover/{x}" if x in "ab" else f"/tmp/mut2/{pid}/handover/{'a' if x == 'c' else 'b'}"
     dst = os.path.join(ROOT, "seeded", f"{pid}-{x}")
     os.makedirs(dst, exist_ok=True)
     for f, g in [("patch.diff", "patch.diff"), ("demo.rs", "demo.rs"), ("meta.txt", "agent_meta.txt")]:
@@ -85,9 +94,12 @@ def verify(pid, x):
     print(pid, x, "confirmed" if meta["confirmed"] else "NOT CONFIRMED", f_wo_demo, d_with, d_without)
 
 
-def detect(pid, x, run_all=False):
+def detect(pid, x, run_all=False, fresh=False):
     dst = os.path.join(ROOT, "seeded", f"{pid}-{x}")
     meta = load_meta(dst)
+    if fresh:
+        meta.pop("detection", None)
+        meta.pop("caught_by", None)
     assert sh(f"git -C {REPO} status --porcelain").stdout.strip() == "", "/repo is not clean"
     ev_backup = os.path.join(ROOT, "harness", "target", "evidence-backup-seed")
     shutil.rmtree(ev_backup, ignore_errors=True)
@@ -123,9 +135,9 @@ def detect(pid, x, run_all=False):
 if __name__ == "__main__":
     phase, pid, x = sys.argv[1], sys.argv[2], sys.argv[3]
     if phase == "verify":
-        verify(pid, x)
+        verify(pid, x, sys.argv[sys.argv.index("--src") + 1] if "--src" in sys.argv else None)
     else:
-        detect(pid, x, "--all" in sys.argv)
+        detect(pid, x, "--all" in sys.argv, "--fresh" in sys.argv)
         m = load_meta(os.path.join(ROOT, "seeded", f"{pid}-{x}"))
         if not m.get("caught_by") and "--all" not in sys.argv:
             detect(pid, x, True)
